@@ -1,24 +1,47 @@
 """C18 — exactly one immutable configuration is active; a failed load leaves none.
 
+Every rule is decided on values and paths, not on spellings: the singleton is
+followed by a null-ness dataflow over the CFGs (through locals bound from it and
+through resolved helpers), the overlay is followed by a small symbolic execution
+of `Config.load` (through helpers, in-place merges, copies, renamed variables,
+loops over literal tuples), and "who may do what" is read off the resolved call
+graph.
+
 R1  publish last (T-ORDER over the validation pipeline).  pydantic runs the
     class's `mode='after'` model validators in declaration order, so the
     pipeline is read off the class body.  The store of a non-None value to the
-    module global `_config` must be in the *last* after-validator, must not sit
-    in a `finally`/`except`, and nothing fallible may follow it on a normal
-    path.  Accepted alternative: every fallible step after the publish is
-    covered by a handler that stores None back and re-raises.
+    module global `_config` must be reached from the *last* after-validator,
+    must not sit in a `finally`/`except`, and nothing fallible (a raise, or a
+    call other than logging) may follow it on a normal path, in the publishing
+    function or in the validator that called it.  Accepted alternative: every
+    fallible step after the publish is covered by a handler that stores None
+    back and re-raises.
 R2  frozen closure: every model class reachable from Config through field
-    annotations declares frozen=True; object.__setattr__ on configuration
-    objects occurs only inside Config's own validators.
-R3  guards: Config.get and both proxy methods raise while `_config is None`;
-    the "already initialised" refusal is the first thing the first
-    after-validator does; reset stores None.
-R5  key normalisation keeps the overlay order: every item is stored into the
-    normalised dict, later spellings replacing earlier ones.
-R4  precedence: load computes deep_update(defaults, deep_update(file, kwargs));
-    every merge step is the recursive deep_update (a shallow merge loses
-    nested keys); deep_update lets the overlay win and recurses only when both
-    sides are dicts.
+    annotations declares frozen=True; a write that bypasses the frozen model
+    (object.__setattr__/__delattr__, a store into __dict__) on a configuration
+    object happens only in functions that are reachable *only* from Config's
+    own validators (call graph over resolved callers), i.e. before publication.
+R3  guards, by null-ness of the singleton: every function that uses the
+    singleton's value does so only where it is known not to be None; Config.get
+    and both proxy methods return normally only when a configuration is active
+    (a refusal hidden in a shared helper counts, a silent `return None` does
+    not); on every path through the pipeline to the publish the singleton has
+    been seen to be None, all other paths refuse; reset leaves it None on every
+    path; nothing else clears it, except a failed load that clears *its own*
+    publication (identity test against the instance being built).
+R5  key normalisation keeps the overlay order: the normaliser walks the items
+    of its input in insertion order and every item reaches a store into the
+    result under its mapped name; no skip or store depends on what the result
+    already holds (keep-first), so the later spelling of a field replaces the
+    earlier one.
+R4  precedence, by symbolic execution of Config.load: the data handed to
+    validation is defaults <- file <- keyword arguments on every path (a file
+    that was not given and empty keyword arguments count as empty layers), each
+    step is the recursive merge (a shallow merge of two non-empty layers loses
+    nested keys), and the merge function itself, decided by cases on
+    (base entry absent / scalar / table) x (overlay value scalar / table),
+    recurses exactly when both sides are tables and lets the overlay value win
+    otherwise.
 """
 
 from __future__ import annotations
@@ -26,26 +49,36 @@ from __future__ import annotations
 import ast
 
 from ..astutil import first_stmt, last_stmt  # noqa: F401
-from ..astutil import (ancestors, call_name, calls_in, guards_of, kwarg, norm, single_def_value,
-                       stores_to, walk_no_nested)
+from ..astutil import (LOG_CALLS, ancestors, call_name, calls_in, guards_of, iterated_mapping, kwarg, local_defs,
+                       map_iteration, norm, stores_to, walk_no_nested)
 from ..cfg import CFG
-from ..loader import ClassInfo
-from ..resolve import _ann_class, closure, resolve_call
+from ..loader import ClassInfo, FunctionInfo
+from ..resolve import callees, closure, expr_class, resolve_call
 
 CORE = 'config/core.py'
 GLOBAL = '_config'
+TOP = frozenset('NS')   # the singleton may be None / may be set
+ISNONE = frozenset('N')
+ISSET = frozenset('S')
 
 
-def _after_validators(cls: ClassInfo):
+def _validators(cls: ClassInfo, mode: str | None = None):
+    """model validators declared in the class body, in declaration order (optionally of one mode)"""
     out = []
     for s in cls.node.body:
         if isinstance(s, ast.FunctionDef):
             for d in s.decorator_list:
                 if isinstance(d, ast.Call) and call_name(d).endswith('model_validator'):
-                    mode = kwarg(d, 'mode')
-                    if isinstance(mode, ast.Constant) and mode.value == 'after':
+                    md = kwarg(d, 'mode')
+                    if mode is None or (isinstance(md, ast.Constant) and md.value == mode):
                         out.append(cls.methods[s.name])
+                elif mode is None and 'validator' in norm(d):
+                    out.append(cls.methods[s.name])
     return out
+
+
+def _is_logging(c: ast.Call) -> bool:
+    return call_name(c).startswith(LOG_CALLS)
 
 
 def _global_stores(fi):
@@ -60,32 +93,1203 @@ def _global_stores(fi):
     return out
 
 
+def _within(n, anc):
+    return any(a is anc for a in ancestors(n))
+
+
+def _own_publication(node) -> bool:
+    """node runs only when the singleton *is* some particular object (`_config is self`): a load undoing its own
+    publication"""
+    for t, pol, _ in guards_of(node):
+        for x in ast.walk(t):
+            if isinstance(x, ast.Compare) and len(x.ops) == 1 and isinstance(x.ops[0], ast.Is) and pol:
+                sides = [x.left, x.comparators[0]]
+                if any(isinstance(s_, ast.Name) and s_.id == GLOBAL for s_ in sides) and \
+                        not any(isinstance(s_, ast.Constant) for s_ in sides):
+                    return True
+    return False
+
+
+# ------------------------------------------------------------------------------------------------------------------
+# null-ness of the singleton
+# ------------------------------------------------------------------------------------------------------------------
+
+class Nullness:
+    """forward dataflow of {may be None, may be set} for the module global over a function's CFG, with summaries of
+    resolved callees of the same module that touch it"""
+
+    def __init__(self, prog, m):
+        self.prog, self.m = prog, m
+        self.touch = {q for q, fi in m.functions.items()
+                      if any(isinstance(n, ast.Name) and n.id == GLOBAL for n in walk_no_nested(fi.node))}
+        self._relevant = {}
+        self._memo = {}
+        self._active = set()
+        self.at_store = {}   # id(stmt) -> union of in-states at stores of the global
+        self.at_use = {}     # id(Name node) -> (fi, node, union of states)
+        self.cfgs = {}
+
+    def relevant(self, callee) -> bool:
+        k = (callee.file, callee.qualname)
+        if k not in self._relevant:
+            self._relevant[k] = False
+            self._relevant[k] = any(f.module is self.m and f.qualname in self.touch for f in closure(self.prog, [callee]))
+        return self._relevant[k]
+
+    def is_ref(self, fi, e) -> bool:
+        """e evaluates to the singleton as it is now: the global itself or a local bound once from it"""
+        if isinstance(e, ast.NamedExpr):
+            return self.is_ref(fi, e.value)
+        if isinstance(e, ast.Name):
+            if e.id == GLOBAL:
+                return True
+            ds = local_defs(fi.node, e.id)
+            if len(ds) == 1 and isinstance(ds[0], (ast.Assign, ast.AnnAssign)) and ds[0].value is not None \
+                    and isinstance(ds[0].value, ast.Name) and ds[0].value.id == GLOBAL \
+                    and not _global_stores(fi):
+                return True
+        return False
+
+    @staticmethod
+    def _is_snapshot_rhs(x) -> bool:
+        """`local = _config`: binds a local to the singleton as it is now; reads nothing from it"""
+        p = getattr(x, '_parent', None)
+        return isinstance(p, (ast.Assign, ast.AnnAssign)) and p.value is x and all(
+            isinstance(t, ast.Name) for t in (p.targets if isinstance(p, ast.Assign) else [p.target]))
+
+    def refine(self, fi, e, truth, S):
+        if isinstance(e, ast.UnaryOp) and isinstance(e.op, ast.Not):
+            return self.refine(fi, e.operand, not truth, S)
+        if isinstance(e, ast.BoolOp):
+            if isinstance(e.op, ast.And) == truth:
+                for v in e.values:
+                    S = self.refine(fi, v, truth, S)
+                return S
+            out, cur = frozenset(), S
+            for v in e.values:
+                out |= self.refine(fi, v, truth, cur)
+                cur = self.refine(fi, v, not truth, cur)
+            return out
+        if isinstance(e, ast.Compare) and len(e.ops) == 1:
+            a, b, op = e.left, e.comparators[0], e.ops[0]
+            if isinstance(a, ast.Constant) and a.value is None:
+                a, b = b, a
+            if self.is_ref(fi, a) and isinstance(b, ast.Constant) and b.value is None \
+                    and isinstance(op, (ast.Is, ast.IsNot, ast.Eq, ast.NotEq)):
+                none = isinstance(op, (ast.Is, ast.Eq)) == truth
+                return S & ISNONE if none else S & ISSET
+            return S
+        if self.is_ref(fi, e):   # truthiness of a model instance: set <=> true
+            return S & ISSET if truth else S & ISNONE
+        return S
+
+    def test_positions(self, fi):
+        """ids of Name loads of the global that are only *tested* for None-ness"""
+        out = set()
+        for n in walk_no_nested(fi.node):
+            if isinstance(n, ast.Compare) and len(n.ops) == 1 and isinstance(n.ops[0], (ast.Is, ast.IsNot, ast.Eq, ast.NotEq)):
+                sides = [n.left, n.comparators[0]]
+                if any(isinstance(s, ast.Constant) and s.value is None for s in sides):
+                    out |= {id(s) for s in sides if isinstance(s, ast.Name)}
+                # identity against another object (`_config is self`) reads nothing from it
+                if isinstance(n.ops[0], (ast.Is, ast.IsNot)):
+                    out |= {id(s) for s in sides if isinstance(s, ast.Name)}
+            tests = []
+            if isinstance(n, (ast.If, ast.While, ast.IfExp)):
+                tests.append(n.test)
+            if isinstance(n, ast.Assert):
+                tests.append(n.test)
+            for t in tests:
+                st = [t]
+                while st:
+                    x = st.pop()
+                    if isinstance(x, ast.BoolOp):
+                        st.extend(x.values)
+                    elif isinstance(x, ast.UnaryOp) and isinstance(x.op, ast.Not):
+                        st.append(x.operand)
+                    elif isinstance(x, ast.Name):
+                        out.add(id(x))
+        return out
+
+    def arg_nullness(self, caller, callee, c: ast.Call):
+        """((param, 'N' | 'S'), ...) for the arguments of a call whose None-ness is evident: a None constant, the
+        instance, a parameter the caller itself got that way"""
+        implicit = 1 if callee.cls is not None and not any('staticmethod' in d for d in callee.decorators()) \
+            and isinstance(c.func, ast.Attribute) else 0
+        names = callee.params[implicit:]
+        pairs = [(names[i], a) for i, a in enumerate(c.args) if i < len(names) and not isinstance(a, ast.Starred)]
+        pairs += [(k.arg, k.value) for k in c.keywords if k.arg in names]
+        out = []
+        for nm, a in pairs:
+            if isinstance(a, ast.Constant) and a.value is None:
+                out.append((nm, 'N'))
+            elif isinstance(a, ast.Name) and a.id in ('self',) or isinstance(a, ast.Call):
+                out.append((nm, 'S'))
+        return tuple(sorted(out))
+
+    def flow(self, fi, S0, collect=False, args=()):
+        key = (fi.file, fi.qualname, S0, args)
+        argd = dict(args)
+        if key in self._memo and not collect:
+            return self._memo[key]
+        if key in self._active:
+            return S0
+        self._active.add(key)
+        try:
+            g = self.cfgs.get((fi.file, fi.qualname))
+            if g is None:
+                g = self.cfgs[(fi.file, fi.qualname)] = CFG(fi.node)
+            declared = any(isinstance(n, ast.Global) and GLOBAL in n.names for n in walk_no_nested(fi.node))
+            tests = self.test_positions(fi)
+
+            def heads(node):
+                s = node.stmt
+                return {'stmt': [s], 'test': [getattr(s, 'test', None)], 'iter': [getattr(s, 'iter', None)],
+                        'with': [i.context_expr for i in getattr(s, 'items', [])],
+                        'match': [getattr(s, 'subject', None)]}.get(node.kind, [])
+
+            def transfer(node, S, emit=False):
+                if node.stmt is None or node.kind in ('finally', 'dispatch', 'join', 'except', 'case'):
+                    return S
+                for h in heads(node):
+                    if h is None:
+                        continue
+                    if emit:
+                        for x in walk_no_nested(h):
+                            if isinstance(x, ast.Name) and isinstance(x.ctx, ast.Load) and id(x) not in tests \
+                                    and self.is_ref(fi, x) and not self._is_snapshot_rhs(x):
+                                r = self.at_use.setdefault(id(x), [fi, x, frozenset()])
+                                r[2] = r[2] | S
+                    for c in calls_in(h):
+                        callee = resolve_call(self.prog, fi, c)
+                        if callee is not None and callee.module is self.m and self.relevant(callee):
+                            S = self.flow(callee, S, emit, self.arg_nullness(fi, callee, c))
+                if node.kind == 'stmt' and declared:
+                    st = node.stmt
+                    tg = []
+                    if isinstance(st, ast.Assign):
+                        tg = [(t, st.value) for t in st.targets]
+                    elif isinstance(st, ast.AnnAssign) and st.value is not None:
+                        tg = [(st.target, st.value)]
+                    elif isinstance(st, ast.Delete):
+                        tg = [(t, None) for t in st.targets]
+                    for t, v in tg:
+                        if isinstance(t, ast.Name) and t.id == GLOBAL:
+                            if emit:
+                                self.at_store[id(st)] = self.at_store.get(id(st), frozenset()) | S
+                            if isinstance(v, ast.Constant) and v.value is None:
+                                S = ISNONE
+                            elif isinstance(v, ast.Name) and v.id in ('self', 'cls') or isinstance(v, ast.Call):
+                                S = ISSET
+                            elif isinstance(v, ast.Name) and v.id in fi.params:
+                                S = {'N': ISNONE, 'S': ISSET}.get(argd.get(v.id), TOP)
+                            else:
+                                S = TOP
+                return S
+
+            def branch(node, lab, S):
+                if node.kind == 'test':
+                    return self.refine(fi, node.stmt.test, lab == 't', S)
+                return S
+
+            ins, _ = g.forward(S0, lambda n, s: transfer(n, s), lambda a, b: a | b, branch_transfer=branch)
+            if collect:
+                for nid, S in ins.items():
+                    transfer(g.nodes[nid], S, emit=True)
+            res = ins.get(g.exit, frozenset())
+            self._memo[key] = res
+            return res
+        finally:
+            self._active.discard(key)
+
+
+# ------------------------------------------------------------------------------------------------------------------
+# R5
+# ------------------------------------------------------------------------------------------------------------------
+
 def rule_normalise(ctx):
     """R5: the overlay order survives key normalisation.  deep_update is case-sensitive, so a key of the file or of the
-    keyword arguments that is capitalised differently from the default's key sits *after* it in the merged dict;
-    CIBaseModel._normalize_dict folds both onto the field name, and the later one (the overlay) must win: the store
-    into the normalised dict happens for every item, in order."""
-    mm = ctx.prog.module('utils/models.py')
-    nd = mm.func('CIBaseModel._normalize_dict')
-    loops = [x for x in walk_no_nested(nd.node) if isinstance(x, ast.For) and norm(x.iter).endswith('.items()')]
-    if len(loops) != 1:
-        ctx.undecided('C18-R5', nd, 'for … in values.items()', f'{len(loops)} item loops')
-    lp = loops[0]
-    stores = [st for t, st, how in stores_to(nd.node) if isinstance(t, ast.Subscript) and norm(t.value) == 'normalized'
-              and any(a is lp for a in ancestors(st))]
-    ctx.floor('C18-R5', len(stores), 1, 'stores into the normalised dict')
-    for st in stores:
-        gs = [norm(t) for t, pol, o in guards_of(st) if any(a is lp for a in ancestors(o))]
-        ok = not gs
-        ctx.ob('C18-R5', nd, f'{norm(st)[:50]} for every item', ok, 'unconditional: the last spelling of a field wins' if ok else
-               f'the store is conditional on {gs}: an overlay key may not replace the default', line=st.lineno)
-    for c in [x for x in ast.walk(lp) if isinstance(x, (ast.Continue, ast.Break))]:
-        gs = [norm(t) for t, pol, o in guards_of(c) if any(a is lp for a in ancestors(o))]
-        ok = gs == ['field_name is None']
-        ctx.ob('C18-R5', nd, f'item skipped when {gs}', ok, 'only when the key maps to no name at all' if ok else
-               (f'items are skipped when {gs}: the first spelling of a field is kept and later ones are dropped, so a default '
-                'beats the file and the file beats keyword arguments whenever the capitalisation differs'), line=c.lineno)
+    keyword arguments that is capitalised differently from the default's key sits *after* it in the merged dict; the
+    normaliser folds both onto the field name, and the later one (the overlay) must win."""
+    prog = ctx.prog
+    cfg = prog.module(CORE).cls('Config')
+    before = [v for c in cfg.mro() for v in _validators(c, 'before')]
+    ctx.floor('C18-R5/before', len(before), 1, "mode='before' validators on Config's bases")
+    found = 0
+    for fn in closure(prog, before):
+        params = [p for p in fn.params if p not in ('self', 'cls')]
+        # item loops over a parameter mapping (statement or comprehension)
+        loops = []
+        for x in walk_no_nested(fn.node):
+            if isinstance(x, ast.For):
+                loops.append((x, x.target, x.iter, None))
+            elif isinstance(x, ast.DictComp):
+                for gen in x.generators[:1]:
+                    loops.append((x, gen.target, gen.iter, gen))
+        for owner, target, it, gen in loops:
+            src = it
+            wrappers = []
+            while isinstance(src, ast.Call) and isinstance(src.func, ast.Name) and src.func.id in ('list', 'tuple', 'iter', 'sorted', 'reversed') \
+                    and len(src.args) == 1:
+                wrappers.append(src.func.id)
+                src = src.args[0]
+            im = iterated_mapping(src)
+            if im is None or not (isinstance(im[0], ast.Name) and im[0].id in params):
+                continue
+            found += 1
+            reorder = [w for w in wrappers if w in ('sorted', 'reversed')]
+            ctx.ob('C18-R5', fn, f'items of `{im[0].id}` are walked in insertion order', not reorder,
+                   'iterates the mapping itself: an overlay key that differs from the default only in capitalisation comes later'
+                   if not reorder else
+                   f'the items are walked through {reorder[0]}(): the spelling that comes last is no longer the overlay\'s, so a '
+                   'default can beat the file and the file the keyword arguments', line=owner.lineno)
+            if gen is not None:
+                # dict comprehension: a later key replaces an earlier one by construction; only filters matter
+                bad = [c for c in gen.ifs]
+                ctx.ob('C18-R5', fn, f'every item is stored: comprehension filters {[norm(c) for c in bad]}', not bad,
+                       'no filter: the last spelling of a field wins' if not bad else
+                       f'items are dropped when not ({norm(bad[0])}): an overlay key may not replace the default', line=owner.lineno)
+                continue
+            _r5_loop(ctx, fn, owner, im[0].id)
+    ctx.floor('C18-R5', found, 1, 'item loops of the key normaliser')
 
+
+def _r5_loop(ctx, fn, lp: ast.For, src: str):
+    g = CFG(fn.node)
+    head = next((n for n in g.nodes if n.kind == 'iter' and n.stmt is lp), None)
+    if head is None:
+        ctx.undecided('C18-R5', fn, f'for … in {src}', 'loop head not found in the CFG')
+    # the result dict(s): subscript stores / update / setdefault inside the loop on a local that the function returns
+    returned = {r.value.id for r in walk_no_nested(fn.node) if isinstance(r, ast.Return) and isinstance(r.value, ast.Name)}
+    store_nodes, keepfirst = {}, []
+    for n in g.nodes:
+        if n.kind != 'stmt' or n.stmt is None or not _within(n.stmt, lp):
+            continue
+        st = n.stmt
+        for t, s2, how in stores_to(st):
+            if isinstance(t, ast.Subscript) and isinstance(t.value, ast.Name) and t.value.id in returned and how in ('assign', 'ann'):
+                store_nodes[n.id] = t.value.id
+        if isinstance(st, ast.Expr) and isinstance(st.value, ast.Call) and isinstance(st.value.func, ast.Attribute) \
+                and isinstance(st.value.func.value, ast.Name) and st.value.func.value.id in returned:
+            if st.value.func.attr == 'update':
+                store_nodes[n.id] = st.value.func.value.id
+            elif st.value.func.attr == 'setdefault':
+                keepfirst.append(n)
+    ctx.floor('C18-R5/stores', len(store_nodes) + len(keepfirst), 1, 'stores into the normalised dict')
+    results = set(store_nodes.values()) | {n.stmt.value.func.value.id for n in keepfirst}
+    for n in keepfirst:
+        ctx.ob('C18-R5', fn, norm(n.stmt)[:60], False,
+               'setdefault keeps the first spelling of a field and drops later ones: a default beats the file and the file '
+               'beats keyword arguments whenever the capitalisation differs', line=n.line)
+    # every path through the body reaches a store, except paths on which the key maps to no name at all
+    body_nodes = {n.id for n in g.nodes if n.stmt is not None and _within(n.stmt, lp)}
+
+    def never(a, b, lab):
+        """edge taken only when `X is None` for the mapped name (dict.get(k, k) never yields None)"""
+        na = g.nodes[a]
+        if na.kind == 'test' and lab in ('t', 'f'):
+            t = na.stmt.test
+            if isinstance(t, ast.Compare) and len(t.ops) == 1 and isinstance(t.comparators[0], ast.Constant) \
+                    and t.comparators[0].value is None and isinstance(t.left, ast.Name):
+                isnone = isinstance(t.ops[0], (ast.Is, ast.Eq))
+                return (lab == 't') == isnone
+        return False
+
+    def ok_edge(a, b, lab):
+        return lab != 'e' and b not in store_nodes and not never(a, b, lab)
+
+    skipping = None
+    for b, lab in g.succ[head.id]:
+        if lab != 't':
+            continue
+        if b in store_nodes:
+            continue
+        # a path from the body's first node back to the loop head (or out of the loop) that meets no store
+        seen, st = {b}, [b]
+        while st and skipping is None:
+            x = st.pop()
+            for y, l2 in g.succ[x]:
+                if not ok_edge(x, y, l2):
+                    continue
+                if y == head.id or y not in body_nodes:
+                    skipping = x
+                    break
+                if y not in seen:
+                    seen.add(y)
+                    st.append(y)
+    why_skip = ''
+    if skipping is not None:
+        nd = g.nodes[skipping]
+        gs = [norm(t) for t, pol, o in guards_of(nd.stmt) if _within(o, lp) or o is lp] if nd.stmt is not None else []
+        why_skip = f'`{nd.text()[:50]}` (line {nd.line}) under {gs}'
+    ctx.ob('C18-R5', fn, f'every item of `{src}` reaches a store into {sorted(results)}', skipping is None,
+           'on every path through the loop body: the last spelling of a field wins' if skipping is None else
+           (f'an item can pass the loop body without being stored, via {why_skip}: the first spelling of a field is kept and '
+            'later ones are dropped, so a default beats the file and the file beats keyword arguments whenever the '
+            'capitalisation differs'), line=(g.nodes[skipping].line if skipping is not None else lp.lineno))
+    # no decision in the loop depends on what the result already holds
+    for n in g.nodes:
+        if n.kind == 'test' and n.stmt is not None and _within(n.stmt, lp):
+            reads = [x for x in ast.walk(n.stmt.test) if isinstance(x, ast.Name) and x.id in results]
+            if reads:
+                ctx.ob('C18-R5', fn, f'decision `{norm(n.stmt.test)[:60]}` reads the result', False,
+                       'what happens to an item depends on whether its field is already in the result: the first spelling '
+                       'of a field is kept and later ones are dropped, so a default beats the file and the file beats '
+                       'keyword arguments whenever the capitalisation differs', line=n.line)
+
+
+# ------------------------------------------------------------------------------------------------------------------
+# R4: the merge function, by cases
+# ------------------------------------------------------------------------------------------------------------------
+
+class MergeFn:
+    """decides whether a two-parameter function is the recursive overlay-wins merge; .ok / .why / .returns_base"""
+
+    CASES = [(b, v) for b in ('absent', 'scalar', 'dict') for v in ('scalar', 'dict')]
+
+    def __init__(self, prog, fi):
+        self.prog, self.fi = prog, fi
+        self.ok, self.why, self.returns_base = None, 'not analysed', False
+        self.base = self.overlay = None
+        self.detail = {}
+        self._run()
+
+    def _run(self):
+        fi = self.fi
+        ps = [p for p in fi.params if p not in ('self', 'cls')]
+        if len(ps) != 2:
+            self.why = 'not a two-parameter function'
+            return
+        loops = [x for x in walk_no_nested(fi.node) if isinstance(x, ast.For)]
+        if len(loops) != 1:
+            self.why = f'{len(loops)} loops'
+            return
+        lp = loops[0]
+        mi = map_iteration(lp.target, lp.iter)
+        if mi is None or mi[0] not in ps:
+            self.why = f'loop does not walk a parameter mapping: {norm(lp.iter)}'
+            return
+        self.overlay = mi[0]
+        self.base = next(p for p in ps if p != self.overlay)
+        self.key, self.val = mi[1], mi[2]
+        if self.key is None:
+            self.why = 'loop does not bind the key'
+            return
+        self.lp = lp
+        rets = [r for r in walk_no_nested(fi.node) if isinstance(r, ast.Return)]
+        self.returns_base = bool(rets) and all(isinstance(r.value, ast.Name) and r.value.id == self.base for r in rets) \
+            and not any(_within(r, lp) for r in rets)
+        bad = None
+        for case in self.CASES:
+            try:
+                eff = self._exec(lp.body, case, {})
+            except _Undecided as u:
+                self.ok, self.why = None, f'case base={case[0]}, overlay={case[1]}: {u}'
+                return
+            want = 'merge' if case == ('dict', 'dict') else 'replace'
+            self.detail[case] = eff
+            if eff != want and bad is None:
+                bad = (case, eff, want)
+        if bad:
+            case, eff, want = bad
+            self.ok = False
+            what = {'merge': 'merges the two tables key by key', 'replace': 'stores the overlay value', 'shallow': 'merges the tables one level deep only',
+                    'nothing': 'leaves the base entry as it is', 'error': 'fails'}.get(eff, eff)
+            self.why = (f'when the base entry is {self._nm(case[0])} and the overlay value is {self._nm(case[1])} the function {what}, '
+                        f'but the overlay must {"be merged into the base table recursively" if want == "merge" else "replace the base entry"}')
+        else:
+            self.ok = True
+            self.why = 'recurses exactly when both sides are tables; otherwise the overlay value replaces the base entry'
+
+    @staticmethod
+    def _nm(k):
+        return {'absent': 'absent', 'scalar': 'a plain value', 'dict': 'a table'}[k]
+
+    # -- tiny evaluator for one loop iteration under a case ------------------------------------------------------
+    def _kind(self, e, case, env):
+        """'dict' | 'scalar' | 'absent'(None from .get) | 'error' | None(unknown) of an expression"""
+        b, v = case
+        if isinstance(e, ast.Constant) and e.value is None:
+            return 'absent'
+        if isinstance(e, ast.Dict) and not e.keys:
+            return 'dict'
+        if isinstance(e, ast.IfExp):
+            return self._kind(e.body if self._truth(e.test, case, env) else e.orelse, case, env)
+        if isinstance(e, ast.Name):
+            if e.id == self.val:
+                return v
+            if e.id in env:
+                return env[e.id]
+            return None
+        if isinstance(e, ast.Subscript) and isinstance(e.value, ast.Name) and isinstance(e.slice, ast.Name) and e.slice.id == self.key:
+            if e.value.id == self.base:
+                return 'error' if b == 'absent' else b
+            if e.value.id == self.overlay:
+                return v
+        if isinstance(e, ast.Call) and isinstance(e.func, ast.Attribute) and e.func.attr == 'get' and isinstance(e.func.value, ast.Name) \
+                and e.args and isinstance(e.args[0], ast.Name) and e.args[0].id == self.key:
+            dflt = e.args[1] if len(e.args) > 1 else None
+            if e.func.value.id == self.base:
+                if b != 'absent':
+                    return b
+                if dflt is None or (isinstance(dflt, ast.Constant) and dflt.value is None):
+                    return 'absent'
+                if isinstance(dflt, ast.Dict) and not dflt.keys:
+                    return 'dict'
+                return 'scalar'
+            if e.func.value.id == self.overlay:
+                return v
+        return None
+
+    def _truth(self, e, case, env):
+        b, v = case
+        if isinstance(e, ast.UnaryOp) and isinstance(e.op, ast.Not):
+            return not self._truth(e.operand, case, env)
+        if isinstance(e, ast.BoolOp):
+            if isinstance(e.op, ast.And):
+                return all(self._truth(x, case, env) for x in e.values)   # short circuit by generator
+            return any(self._truth(x, case, env) for x in e.values)
+        if isinstance(e, ast.Compare) and len(e.ops) == 1:
+            op, a, c = e.ops[0], e.left, e.comparators[0]
+            if isinstance(op, (ast.In, ast.NotIn)) and isinstance(a, ast.Name) and a.id == self.key:
+                tgt = c
+                if isinstance(tgt, ast.Call) and isinstance(tgt.func, ast.Attribute) and tgt.func.attr == 'keys' and not tgt.args:
+                    tgt = tgt.func.value
+                if isinstance(tgt, ast.Name) and tgt.id == self.base:
+                    return (b != 'absent') == isinstance(op, ast.In)
+                if isinstance(tgt, ast.Name) and tgt.id == self.overlay:
+                    return isinstance(op, ast.In)
+            if isinstance(c, ast.Constant) and c.value is None and isinstance(op, (ast.Is, ast.IsNot, ast.Eq, ast.NotEq)):
+                k = self._kind(a, case, env)
+                if k == 'error':
+                    raise _Undecided(f'`{norm(a)}` is evaluated although the key may be absent')
+                if k is not None:
+                    return (k == 'absent') == isinstance(op, (ast.Is, ast.Eq))
+            if isinstance(op, (ast.Is, ast.Eq, ast.IsNot, ast.NotEq)) and isinstance(a, ast.Call) and call_name(a) == 'type' and len(a.args) == 1 \
+                    and isinstance(c, ast.Name) and c.id == 'dict':
+                k = self._kind(a.args[0], case, env)
+                if k == 'error':
+                    raise _Undecided(f'`{norm(a)}` is evaluated although the key may be absent')
+                if k is not None:
+                    return (k == 'dict') == isinstance(op, (ast.Is, ast.Eq))
+        if isinstance(e, ast.Call) and call_name(e) == 'isinstance' and len(e.args) == 2:
+            ty = e.args[1]
+            tys = [norm(t).split('.')[-1] for t in (ty.elts if isinstance(ty, ast.Tuple) else [ty])]
+            if set(tys) <= {'dict', 'Mapping', 'MutableMapping', 'Dict'}:
+                k = self._kind(e.args[0], case, env)
+                if k == 'error':
+                    raise _Undecided(f'`{norm(e.args[0])}` is evaluated although the key may be absent')
+                if k is not None:
+                    return k == 'dict'
+        raise _Undecided(f'condition `{norm(e)[:70]}` is outside the merge idiom')
+
+    def _is_nested_base(self, e, case, env):
+        return self._kind(e, case, env) == case[0] and not (isinstance(e, ast.Name) and e.id == self.val) and case[0] == 'dict' \
+            and (not isinstance(e, ast.Name) or env.get('@' + e.id) == 'base')
+
+    def _value_effect(self, v, case, env):
+        """effect of storing expression v into base[key]"""
+        if isinstance(v, ast.Name) and (v.id == self.val or env.get('@' + v.id) == 'overlay') or (
+                isinstance(v, ast.Subscript) and isinstance(v.value, ast.Name) and v.value.id == self.overlay):
+            return 'replace'
+        if isinstance(v, ast.Call):
+            callee = resolve_call(self.prog, self.fi, v)
+            if callee is not None and callee == self.fi and len(v.args) == 2:
+                a0, a1 = v.args
+                pos = [p for p in self.fi.params if p not in ('self', 'cls')]
+                if pos[0] != self.base:
+                    a0, a1 = a1, a0
+                if self._is_nested_base(a0, case, env) and self._kind(a1, case, env) == case[1]:
+                    if not self.returns_base:
+                        raise _Undecided('the recursive result is stored but the function does not return its base')
+                    return 'merge'
+            if call_name(v) in ('copy.deepcopy', 'deepcopy', 'copy.copy', 'dict') and len(v.args) == 1 and not v.keywords:
+                return self._value_effect(v.args[0], case, env)
+            if call_name(v) == 'dict' and v.keywords:
+                return 'shallow'
+        if isinstance(v, ast.Dict) and any(k is None for k in v.keys):
+            return 'shallow'
+        if isinstance(v, ast.BinOp) and isinstance(v.op, ast.BitOr):
+            return 'shallow'
+        if isinstance(v, ast.IfExp):
+            return self._value_effect(v.body if self._truth(v.test, case, env) else v.orelse, case, env)
+        raise _Undecided(f'value `{norm(v)[:60]}` stored into the base is outside the merge idiom')
+
+    def _exec(self, body, case, env):
+        """effect on base[key] of one iteration: 'merge' | 'replace' | 'shallow' | 'nothing'"""
+        eff = 'nothing'
+        for st in body:
+            if isinstance(st, ast.Expr) and isinstance(st.value, ast.Constant):
+                continue
+            if isinstance(st, ast.Expr) and isinstance(st.value, ast.Call) and _is_logging(st.value):
+                continue
+            if isinstance(st, ast.Pass):
+                continue
+            if isinstance(st, ast.Continue):
+                return eff
+            if isinstance(st, ast.If):
+                branch = st.body if self._truth(st.test, case, env) else st.orelse
+                sub = self._exec(branch, case, env)
+                if sub == '@continue':
+                    return eff
+                if isinstance(sub, tuple):
+                    return sub[1] if sub[1] != 'nothing' else eff
+                if sub != 'nothing':
+                    eff = sub
+                if any(isinstance(x, ast.Continue) for s2 in branch for x in ast.walk(s2)):
+                    return eff
+                continue
+            if isinstance(st, (ast.Assign, ast.AnnAssign)):
+                tgts = st.targets if isinstance(st, ast.Assign) else [st.target]
+                v = st.value
+                if len(tgts) == 1 and isinstance(tgts[0], ast.Name):
+                    k = self._kind(v, case, env)
+                    if k == 'error':
+                        raise _Undecided(f'`{norm(v)}` is evaluated although the key may be absent')
+                    if k is None:
+                        raise _Undecided(f'local `{norm(st)[:60]}` is outside the merge idiom')
+                    env = dict(env)
+                    env[tgts[0].id] = k
+                    if isinstance(v, ast.IfExp):
+                        v = v.body if self._truth(v.test, case, env) else v.orelse
+                    src_base = (isinstance(v, ast.Subscript) and isinstance(v.value, ast.Name) and v.value.id == self.base) or (
+                        isinstance(v, ast.Call) and isinstance(v.func, ast.Attribute) and isinstance(v.func.value, ast.Name)
+                        and v.func.value.id == self.base)
+                    src_over = (isinstance(v, ast.Name) and (v.id == self.val or env.get('@' + v.id) == 'overlay')) or (
+                        isinstance(v, ast.Subscript) and isinstance(v.value, ast.Name) and v.value.id == self.overlay) or (
+                        isinstance(v, ast.Call) and isinstance(v.func, ast.Attribute) and isinstance(v.func.value, ast.Name)
+                        and v.func.value.id == self.overlay and v.func.attr == 'get')
+                    env['@' + tgts[0].id] = 'base' if src_base else 'overlay' if src_over else 'other'
+                    if tgts[0].id == self.val:
+                        raise _Undecided('the overlay value is rebound')
+                    continue
+                if len(tgts) == 1 and isinstance(tgts[0], ast.Subscript) and isinstance(tgts[0].value, ast.Name) \
+                        and tgts[0].value.id == self.base and isinstance(tgts[0].slice, ast.Name) and tgts[0].slice.id == self.key:
+                    eff = self._value_effect(v, case, env)
+                    continue
+                raise _Undecided(f'statement `{norm(st)[:60]}` is outside the merge idiom')
+            if isinstance(st, ast.Expr) and isinstance(st.value, ast.Call):
+                c = st.value
+                callee = resolve_call(self.prog, self.fi, c)
+                if callee is not None and callee == self.fi and len(c.args) == 2:
+                    a0, a1 = c.args
+                    pos = [p for p in self.fi.params if p not in ('self', 'cls')]
+                    if pos[0] != self.base:
+                        a0, a1 = a1, a0
+                    k0 = self._kind(a0, case, env)
+                    if k0 == 'error':
+                        raise _Undecided(f'`{norm(a0)}` is evaluated although the key may be absent')
+                    if k0 == 'dict' and self._kind(a1, case, env) == 'dict' and case == ('dict', 'dict'):
+                        eff = 'merge'
+                        continue
+                    # recursion into something that is not a pair of tables
+                    eff = 'error'
+                    continue
+                if isinstance(c.func, ast.Attribute) and isinstance(c.func.value, ast.Name) and c.func.value.id == self.base \
+                        and c.func.attr == 'setdefault' and len(c.args) == 2 and isinstance(c.args[0], ast.Name) \
+                        and c.args[0].id == self.key:
+                    if case[0] == 'absent':   # stores only when the key is new: an existing base entry is kept
+                        eff = self._value_effect(c.args[1], case, env)
+                    continue
+                if isinstance(c.func, ast.Attribute) and c.func.attr == 'update' and len(c.args) == 1 \
+                        and self._is_nested_base(c.func.value, case, env):
+                    eff = 'shallow'
+                    continue
+                raise _Undecided(f'call `{norm(c)[:60]}` is outside the merge idiom')
+            raise _Undecided(f'statement `{norm(st)[:60]}` is outside the merge idiom')
+        return eff
+
+
+class _Undecided(Exception):
+    pass
+
+
+# ------------------------------------------------------------------------------------------------------------------
+# R4: symbolic execution of Config.load
+# ------------------------------------------------------------------------------------------------------------------
+
+class _Cell:
+    __slots__ = ('layers', 'shallow', 'unknown')
+
+    def __init__(self, layers=(), shallow=None, unknown=None):
+        self.layers, self.shallow, self.unknown = tuple(layers), shallow, unknown
+
+    def copy(self):
+        return _Cell(self.layers, self.shallow, self.unknown)
+
+
+class _State:
+    def __init__(self, env=None, heap=None, absent=frozenset(), given=frozenset()):
+        self.env = dict(env or {})
+        self.heap = {k: v.copy() for k, v in (heap or {}).items()}
+        self.absent = absent      # layers known to be empty on this path ('F': no file given, 'K': no keyword arguments)
+        self.given = given        # layers known to be non-empty / present
+
+    def fork(self):
+        return _State(self.env, self.heap, self.absent, self.given)
+
+    def new_cell(self, layers=(), shallow=None, unknown=None):
+        i = len(self.heap) + 1
+        while i in self.heap:
+            i += 1
+        self.heap[i] = _Cell(layers, shallow, unknown)
+        return ('cell', i)
+
+
+class LoadExec:
+    """symbolic execution of Config.load: which layers (D defaults, F file, K keyword arguments) reach validation,
+    in which order, merged how"""
+
+    LIMIT = 256
+
+    def __init__(self, ctx, prog, m, ld, merge_fns):
+        self.ctx, self.prog, self.m, self.ld = ctx, prog, m, ld
+        self.merge_fns = merge_fns     # {(file, qualname): MergeFn}
+        self.finals = []               # (line, layers, shallow, unknown, absent)
+        self.count = 0
+
+    # -- helpers -----------------------------------------------------------------------------------------------------
+    def _const_strings(self, fi, e, depth=0):
+        out = []
+        for x in ast.walk(e):
+            if isinstance(x, ast.Constant) and isinstance(x.value, str):
+                out.append(x.value)
+            elif isinstance(x, ast.Name) and depth < 3:
+                r = self.prog.resolve_name(fi.module, x.id)
+                if isinstance(r, tuple) and r[0] == 'const':
+                    out += self._const_strings(FunctionInfo('<module>', fi.node, r[1]), r[1].constants[r[2]], depth + 1)
+        return out
+
+    def _merge(self, st, base, over, how, line):
+        """in-place merge of cell `over` into cell `base`"""
+        b, o = st.heap[base[1]], st.heap[over[1]]
+        if o.unknown and not b.unknown:
+            b.unknown = o.unknown
+        if o.shallow and not b.shallow:
+            b.shallow = o.shallow
+        if how == 'shallow':
+            live_b = [x for x in b.layers if x not in st.absent]
+            live_o = [x for x in o.layers if x not in st.absent]
+            if live_b and live_o and not b.shallow:
+                nm = {'D': 'defaults', 'F': 'file', 'K': 'keyword arguments'}
+                b.shallow = (f'line {line}: {"+".join(nm[x] for x in live_b)} and {"+".join(nm[x] for x in live_o)} are combined '
+                             'one level deep')
+        b.layers = b.layers + o.layers
+
+    def _facts(self, fi, test, truth, st):
+        """states after `test` evaluated to `truth`: learns 'no file given' / 'no keyword arguments'"""
+        if isinstance(test, ast.UnaryOp) and isinstance(test.op, ast.Not):
+            yield from self._facts(fi, test.operand, not truth, st)
+            return
+        if isinstance(test, ast.BoolOp):
+            conj = isinstance(test.op, ast.And) == truth
+            if conj:
+                sts = [st]
+                for v in test.values:
+                    sts = [s2 for s in sts for s2 in self._facts(fi, v, truth, s)]
+                yield from sts
+                return
+            cur = [st]
+            for v in test.values:
+                for s in cur:
+                    yield from self._facts(fi, v, truth, s)
+                cur = [s2 for s in cur for s2 in self._facts(fi, v, not truth, s)]
+            return
+        layer = None
+        positive = None   # truth of test means "layer present"
+        if isinstance(test, ast.Compare) and len(test.ops) == 1 and isinstance(test.comparators[0], ast.Constant) \
+                and test.comparators[0].value is None and isinstance(test.ops[0], (ast.Is, ast.IsNot, ast.Eq, ast.NotEq)):
+            v = self._peek(fi, test.left, st)
+            if v == ('path', 'F'):
+                layer, positive = 'F', isinstance(test.ops[0], (ast.IsNot, ast.NotEq))
+        else:
+            e = test
+            if isinstance(e, ast.Call) and call_name(e) in ('len', 'bool') and len(e.args) == 1:
+                e = e.args[0]
+            if isinstance(e, ast.Compare) and len(e.ops) == 1 and isinstance(e.comparators[0], ast.Constant) and e.comparators[0].value == 0 \
+                    and isinstance(e.left, ast.Call) and call_name(e.left) == 'len' and isinstance(e.ops[0], (ast.Gt, ast.NotEq, ast.Eq)):
+                v = self._peek(fi, e.left.args[0], st) if e.left.args else None
+                pos = not isinstance(e.ops[0], ast.Eq)
+            else:
+                v = self._peek(fi, e, st)
+                pos = True
+            if v == ('path', 'F'):
+                layer, positive = 'F', pos
+            elif isinstance(v, tuple) and v[0] == 'cell' and st.heap[v[1]].layers == ('K',) and not st.heap[v[1]].shallow:
+                layer, positive = 'K', pos
+        if layer is None:
+            yield st.fork()
+            return
+        present = positive == truth
+        if (present and layer in st.absent) or (not present and layer in st.given):
+            return   # contradicts what this path already knows
+        s2 = st.fork()
+        if present:
+            s2.given = s2.given | {layer}
+        else:
+            s2.absent = s2.absent | {layer}
+        yield s2
+
+    def _peek(self, fi, e, st):
+        """value of a side-effect-free expression without forking (None when it is not that simple)"""
+        if isinstance(e, ast.Name):
+            return st.env.get(e.id)
+        return None
+
+    # -- expressions ---------------------------------------------------------------------------------------------------
+    def eval(self, fi, e, st, depth=0):
+        """yields (value, state)"""
+        self.count += 1
+        if self.count > 20000:
+            raise _Undecided('symbolic execution of load does not terminate in reasonable time')
+        if e is None:
+            yield None, st
+            return
+        if isinstance(e, ast.NamedExpr):
+            for v, s in self.eval(fi, e.value, st, depth):
+                s.env[e.target.id] = v
+                yield v, s
+            return
+        if isinstance(e, ast.Constant):
+            yield (('none',) if e.value is None else ('const', e.value)), st
+            return
+        if isinstance(e, ast.Name):
+            if e.id in st.env:
+                yield st.env[e.id], st
+                return
+            r = self.prog.resolve_name(fi.module, e.id)
+            if isinstance(r, tuple) and r[0] == 'const':
+                yield from self.eval(FunctionInfo('<module>', fi.node, r[1]), r[1].constants[r[2]], st, depth)
+                return
+            yield ('unk', e.id), st
+            return
+        if isinstance(e, ast.IfExp):
+            for truth, branch in ((True, e.body), (False, e.orelse)):
+                for s in self._facts(fi, e.test, truth, st):
+                    yield from self.eval(fi, branch, s, depth)
+            return
+        if isinstance(e, ast.BoolOp) and isinstance(e.op, ast.Or) and len(e.values) == 2:
+            # `x or {}`: x when it is given, else the other
+            for s in self._facts(fi, e.values[0], True, st):
+                yield from self.eval(fi, e.values[0], s, depth)
+            for s in self._facts(fi, e.values[0], False, st):
+                yield from self.eval(fi, e.values[1], s, depth)
+            return
+        if isinstance(e, ast.Dict):
+            yield from self._shallow_parts(fi, [(k, v) for k, v in zip(e.keys, e.values)], st, e.lineno, depth)
+            return
+        if isinstance(e, ast.BinOp) and isinstance(e.op, ast.BitOr):
+            yield from self._shallow_parts(fi, [(None, e.left), (None, e.right)], st, e.lineno, depth)
+            return
+        if isinstance(e, ast.BinOp) and isinstance(e.op, ast.Div):
+            ss = self._const_strings(fi, e)
+            if any('default_config' in s for s in ss):
+                yield ('path', 'D'), st
+                return
+            for v, s in self.eval(fi, e.left, st, depth):
+                yield (v if isinstance(v, tuple) and v[0] == 'path' else ('unk', 'path')), s
+            return
+        if isinstance(e, ast.Tuple):
+            outs = [([], st)]
+            for x in e.elts:
+                outs = [(vals + [v], s2) for vals, s in outs for v, s2 in self.eval(fi, x, s, depth)]
+            for vals, s in outs:
+                yield ('tuple', vals), s
+            return
+        if isinstance(e, ast.Attribute):
+            for v, s in self.eval(fi, e.value, st, depth):
+                if isinstance(v, tuple) and v[0] == 'path':
+                    yield v, s       # .parent / .name of a path keep telling which file it is about
+                else:
+                    yield ('unk', norm(e)[:30]), s
+            return
+        if isinstance(e, ast.Call):
+            yield from self._call(fi, e, st, depth)
+            return
+        yield ('unk', norm(e)[:30]), st
+
+    def _shallow_parts(self, fi, parts, st, line, depth):
+        """{**a, **b} / a | b / dict(a, **b): a fresh dict, combined one level deep"""
+        outs = [([], st)]
+        for k, v in parts:
+            if k is not None:
+                outs = [(vals + [('literal', norm(k))], s) for vals, s in outs]
+                continue
+            outs = [(vals + [val], s2) for vals, s in outs for val, s2 in self.eval(fi, v, s, depth)]
+        for vals, s in outs:
+            res = s.new_cell()
+            for val in vals:
+                if isinstance(val, tuple) and val[0] == 'cell':
+                    self._merge(s, res, val, 'shallow', line)
+                elif isinstance(val, tuple) and val[0] == 'literal':
+                    s.heap[res[1]].unknown = s.heap[res[1]].unknown or f'line {line}: literal entry {val[1]} added to the data'
+                else:
+                    s.heap[res[1]].unknown = s.heap[res[1]].unknown or f'line {line}: cannot tell what `{val}` contributes'
+            yield res, s
+
+    def _call(self, fi, c, st, depth):
+        cn = call_name(c)
+        last = cn.split('.')[-1]
+        # final validation
+        if isinstance(c.func, ast.Attribute) and c.func.attr in ('model_validate', 'parse_obj') and c.args:
+            for v, s in self.eval(fi, c.args[0], st, depth):
+                self._final(c, v, s)
+                yield ('config',), s
+            return
+        if isinstance(c.func, ast.Name) and c.func.id in ('cls', 'Config') and not c.args and len(c.keywords) == 1 and c.keywords[0].arg is None:
+            for v, s in self.eval(fi, c.keywords[0].value, st, depth):
+                self._final(c, v, s)
+                yield ('config',), s
+            return
+        callee = resolve_call(self.prog, fi, c)
+        # the recursive merge
+        if callee is not None and (callee.file, callee.qualname) in self.merge_fns:
+            mf = self.merge_fns[(callee.file, callee.qualname)]
+            pos = [p for p in callee.params if p not in ('self', 'cls')]
+            args = {}
+            for i, a in enumerate(c.args[:2]):
+                args[pos[i]] = a
+            for kw in c.keywords:
+                if kw.arg in pos:
+                    args[kw.arg] = kw.value
+            if mf.base in args and mf.overlay in args:
+                for bv, s1 in self.eval(fi, args[mf.base], st, depth):
+                    for ov, s2 in self.eval(fi, args[mf.overlay], s1, depth):
+                        if isinstance(bv, tuple) and bv[0] == 'cell' and isinstance(ov, tuple) and ov[0] == 'cell':
+                            if bv[1] != ov[1]:
+                                self._merge(s2, bv, ov, 'deep', c.lineno)
+                            yield (bv if mf.returns_base else ('none',)), s2
+                        elif isinstance(bv, tuple) and bv[0] == 'cell':
+                            s2.heap[bv[1]].unknown = s2.heap[bv[1]].unknown or f'line {c.lineno}: cannot tell what `{norm(args[mf.overlay])[:40]}` holds'
+                            yield bv, s2
+                        else:
+                            r = s2.new_cell(unknown=f'line {c.lineno}: cannot tell what `{norm(args[mf.base])[:40]}` holds')
+                            yield r, s2
+                return
+        # reading TOML
+        if last in ('load', 'loads') and cn.split('.')[0] in ('tomllib', 'tomli', 'toml', 'rtoml') and c.args:
+            for v, s in self.eval(fi, c.args[0], st, depth):
+                if isinstance(v, tuple) and v[0] in ('fh', 'text', 'path') and v[1] in ('D', 'F'):
+                    yield s.new_cell((v[1],)), s
+                else:
+                    yield s.new_cell(unknown=f'line {c.lineno}: TOML read from an unidentified source `{norm(c.args[0])[:40]}`'), s
+            return
+        if cn in ('open', 'io.open') and c.args:
+            for v, s in self.eval(fi, c.args[0], st, depth):
+                yield (('fh', v[1]) if isinstance(v, tuple) and v[0] == 'path' else ('unk', 'file')), s
+            return
+        if isinstance(c.func, ast.Attribute) and c.func.attr in ('open', 'read_text', 'read_bytes', 'decode', 'read') and callee is None:
+            for v, s in self.eval(fi, c.func.value, st, depth):
+                if isinstance(v, tuple) and v[0] in ('path', 'fh', 'text'):
+                    yield (('fh' if c.func.attr == 'open' else 'text'), v[1]), s
+                else:
+                    yield ('unk', cn), s
+            return
+        if cn in ('Path', 'pathlib.Path', 'str', 'os.fspath', 'os.path.expanduser', 'os.path.abspath', 'os.fsdecode') and len(c.args) >= 1:
+            ss = self._const_strings(fi, c)
+            if any('default_config' in s for s in ss):
+                yield ('path', 'D'), st
+                return
+            for v, s in self.eval(fi, c.args[0], st, depth):
+                yield (v if isinstance(v, tuple) and v[0] == 'path' else ('unk', 'path')), s
+            return
+        if isinstance(c.func, ast.Attribute) and c.func.attr in ('resolve', 'expanduser', 'absolute', 'joinpath', 'with_suffix') and callee is None:
+            ss = self._const_strings(fi, c)
+            if any('default_config' in s for s in ss):
+                yield ('path', 'D'), st
+                return
+            for v, s in self.eval(fi, c.func.value, st, depth):
+                yield (v if isinstance(v, tuple) and v[0] == 'path' else ('unk', 'path')), s
+            return
+        if cn in ('files', 'importlib.resources.files', 'as_file', 'importlib.resources.as_file') or last in ('files', 'as_file'):
+            ss = self._const_strings(fi, c)
+            yield (('path', 'D') if any('default_config' in s for s in ss) else ('pkg',)), st
+            return
+        # copies
+        if cn in ('dict', 'copy.deepcopy', 'deepcopy', 'copy.copy') or (isinstance(c.func, ast.Attribute) and c.func.attr == 'copy' and not c.args):
+            src = c.args[0] if c.args else (c.func.value if isinstance(c.func, ast.Attribute) else None)
+            if cn == 'dict' and not c.args and not c.keywords:
+                yield st.new_cell(), st
+                return
+            if cn == 'dict' and c.keywords:
+                parts = [(None, a) for a in c.args] + [(None if k.arg is None else ast.Constant(k.arg), k.value) for k in c.keywords]
+                yield from self._shallow_parts(fi, parts, st, c.lineno, depth)
+                return
+            for v, s in self.eval(fi, src, st, depth):
+                if isinstance(v, tuple) and v[0] == 'cell':
+                    old = s.heap[v[1]]
+                    yield s.new_cell(old.layers, old.shallow, old.unknown), s
+                else:
+                    yield v, s
+            return
+        if isinstance(c.func, ast.Attribute) and c.func.attr == 'update' and len(c.args) == 1 and callee is None:
+            for bv, s1 in self.eval(fi, c.func.value, st, depth):
+                for ov, s2 in self.eval(fi, c.args[0], s1, depth):
+                    if isinstance(bv, tuple) and bv[0] == 'cell' and isinstance(ov, tuple) and ov[0] == 'cell':
+                        self._merge(s2, bv, ov, 'shallow', c.lineno)
+                    elif isinstance(bv, tuple) and bv[0] == 'cell':
+                        s2.heap[bv[1]].unknown = s2.heap[bv[1]].unknown or f'line {c.lineno}: update() with unidentified data'
+                    yield ('none',), s2
+            return
+        if last in ('ChainMap',):
+            parts = [(None, a) for a in reversed(c.args)]
+            yield from self._shallow_parts(fi, parts, st, c.lineno, depth)
+            return
+        if _is_logging(c) or cn in ('len', 'list', 'sorted', 'isinstance', 'bool', 'repr', 'print', 'tuple', 'set', 'type'):
+            yield ('unk', cn), st
+            return
+        # a resolved repository helper: execute it
+        if callee is not None and depth < 4 and callee.name not in ('__init__',):
+            yield from self._inline(fi, c, callee, st, depth)
+            return
+        # unknown call: a dict handed to it may be changed by it
+        outs = [([], st)]
+        for a in list(c.args) + [k.value for k in c.keywords]:
+            outs = [(vals + [v], s2) for vals, s in outs for v, s2 in self.eval(fi, a, s, depth)]
+        for vals, s in outs:
+            for v in vals:
+                if isinstance(v, tuple) and v[0] == 'cell':
+                    s.heap[v[1]].unknown = s.heap[v[1]].unknown or f'line {c.lineno}: passed to `{cn}`, which may change it'
+            yield ('unk', cn), s
+
+    def _inline(self, fi, c, callee, st, depth):
+        params = callee.params
+        a = callee.node.args
+        implicit = 1 if callee.cls is not None and not any('staticmethod' in d for d in callee.decorators()) else 0
+        names = params[implicit:]
+        exprs = {}
+        for i, x in enumerate(c.args):
+            if isinstance(x, ast.Starred) or i >= len(names):
+                raise _Undecided(f'call `{norm(c)[:50]}` with star arguments')
+            exprs[names[i]] = x
+        for kw in c.keywords:
+            if kw.arg is None:
+                if a.kwarg is not None:
+                    exprs[a.kwarg.arg] = kw.value
+                    continue
+                raise _Undecided(f'call `{norm(c)[:50]}` with ** arguments')
+            exprs[kw.arg] = kw.value
+        pos = a.posonlyargs + a.args
+        defaults = dict(zip([p.arg for p in pos[len(pos) - len(a.defaults):]], a.defaults))
+        defaults.update({p.arg: d for p, d in zip(a.kwonlyargs, a.kw_defaults) if d is not None})
+        states = [({}, st)]
+        for nm in names:
+            ex = exprs.get(nm, defaults.get(nm))
+            if ex is None:
+                continue
+            src_fi = fi if nm in exprs else callee
+            states = [(dict(env, **{nm: v}), s2) for env, s in states for v, s2 in self.eval(src_fi, ex, s, depth)]
+        for env, s in states:
+            saved = s.env
+            s.env = dict(env)
+            for kind, v, s2 in self.exec_block(callee, callee.node.body, s, depth + 1):
+                s2.env = dict(saved)
+                yield (v if kind == 'return' else ('none',)), s2
+
+    # -- statements ------------------------------------------------------------------------------------------------------
+    def exec_block(self, fi, body, st, depth=0):
+        """yields (kind, value, state) with kind in {'fall', 'return'}"""
+        states = [st]
+        for stmt in body:
+            nxt = []
+            for s in states:
+                for kind, v, s2 in self.exec_stmt(fi, stmt, s, depth):
+                    if kind == 'fall':
+                        nxt.append(s2)
+                    else:
+                        yield kind, v, s2
+            states = nxt
+            if len(states) > self.LIMIT:
+                raise _Undecided('too many paths through load')
+        for s in states:
+            yield 'fall', None, s
+
+    def _assign(self, target, v, s):
+        if isinstance(target, ast.Name):
+            s.env[target.id] = v
+        elif isinstance(target, (ast.Tuple, ast.List)) and isinstance(v, tuple) and v[0] == 'tuple' and len(v[1]) == len(target.elts):
+            for t, x in zip(target.elts, v[1]):
+                self._assign(t, x, s)
+        elif isinstance(target, (ast.Tuple, ast.List)):
+            for t in target.elts:
+                self._assign(t, ('unk', 'unpacked'), s)
+        elif isinstance(target, ast.Subscript) and isinstance(target.value, ast.Name):
+            tv = s.env.get(target.value.id)
+            if isinstance(tv, tuple) and tv[0] == 'cell':
+                s.heap[tv[1]].unknown = s.heap[tv[1]].unknown or f'line {target.lineno}: entry {norm(target)[:40]} is set by hand'
+
+    def exec_stmt(self, fi, stmt, st, depth):
+        if isinstance(stmt, (ast.Pass, ast.Global, ast.Nonlocal, ast.Import, ast.ImportFrom, ast.Assert)):
+            yield 'fall', None, st
+        elif isinstance(stmt, ast.Expr):
+            if isinstance(stmt.value, ast.Constant):
+                yield 'fall', None, st
+                return
+            for v, s in self.eval(fi, stmt.value, st, depth):
+                yield 'fall', None, s
+        elif isinstance(stmt, (ast.Assign, ast.AnnAssign)):
+            if getattr(stmt, 'value', None) is None:
+                yield 'fall', None, st
+                return
+            tgts = stmt.targets if isinstance(stmt, ast.Assign) else [stmt.target]
+            for v, s in self.eval(fi, stmt.value, st, depth):
+                for t in tgts:
+                    self._assign(t, v, s)
+                yield 'fall', None, s
+        elif isinstance(stmt, ast.AugAssign):
+            if isinstance(stmt.op, ast.BitOr) and isinstance(stmt.target, ast.Name):
+                for bv, s1 in self.eval(fi, stmt.target, st, depth):
+                    for ov, s2 in self.eval(fi, stmt.value, s1, depth):
+                        if isinstance(bv, tuple) and bv[0] == 'cell' and isinstance(ov, tuple) and ov[0] == 'cell':
+                            self._merge(s2, bv, ov, 'shallow', stmt.lineno)
+                        yield 'fall', None, s2
+            else:
+                yield 'fall', None, st
+        elif isinstance(stmt, ast.Return):
+            for v, s in self.eval(fi, stmt.value, st, depth):
+                yield 'return', v, s
+        elif isinstance(stmt, ast.If):
+            for truth, branch in ((True, stmt.body), (False, stmt.orelse)):
+                for s in self._facts(fi, stmt.test, truth, st):
+                    yield from self.exec_block(fi, branch, s, depth)
+        elif isinstance(stmt, (ast.With, ast.AsyncWith)):
+            states = [st]
+            for it in stmt.items:
+                nxt = []
+                for s in states:
+                    for v, s2 in self.eval(fi, it.context_expr, s, depth):
+                        if it.optional_vars is not None:
+                            self._assign(it.optional_vars, v, s2)
+                        nxt.append(s2)
+                states = nxt
+            for s in states:
+                yield from self.exec_block(fi, stmt.body, s, depth)
+        elif isinstance(stmt, ast.Try):
+            for kind, v, s in self.exec_block(fi, stmt.body, st, depth):
+                if kind == 'fall':
+                    for k2, v2, s2 in self.exec_block(fi, stmt.orelse, s, depth):
+                        if k2 == 'fall':
+                            yield from self.exec_block(fi, stmt.finalbody, s2, depth)
+                        else:
+                            yield k2, v2, s2
+                else:
+                    yield kind, v, s
+        elif isinstance(stmt, ast.For):
+            if isinstance(stmt.iter, (ast.Tuple, ast.List)) and not stmt.orelse:
+                states = [st]
+                for el in stmt.iter.elts:
+                    nxt = []
+                    for s in states:
+                        for v, s2 in self.eval(fi, el, s, depth):
+                            self._assign(stmt.target, v, s2)
+                            for kind, rv, s3 in self.exec_block(fi, stmt.body, s2, depth):
+                                if kind == 'fall':
+                                    nxt.append(s3)
+                                else:
+                                    yield kind, rv, s3
+                    states = nxt
+                for s in states:
+                    yield 'fall', None, s
+            else:
+                # a loop over something else: whatever it touches is no longer known
+                for x in ast.walk(stmt):
+                    if isinstance(x, ast.Name) and isinstance(st.env.get(x.id), tuple) and st.env[x.id][0] == 'cell':
+                        cell = st.heap[st.env[x.id][1]]
+                        cell.unknown = cell.unknown or f'line {stmt.lineno}: used inside a loop that is not over a literal sequence'
+                yield 'fall', None, st
+        elif isinstance(stmt, ast.Raise):
+            return
+        elif isinstance(stmt, (ast.FunctionDef, ast.ClassDef)):
+            yield 'fall', None, st
+        else:
+            raise _Undecided(f'statement `{norm(stmt)[:50]}` in load')
+
+    def _final(self, c, v, s):
+        if isinstance(v, tuple) and v[0] == 'cell':
+            cell = s.heap[v[1]]
+            self.finals.append((c.lineno, cell.layers, cell.shallow, cell.unknown, s.absent))
+        else:
+            self.finals.append((c.lineno, (), None, f'line {c.lineno}: cannot tell what `{norm(c.args[0] if c.args else c)[:40]}` holds', s.absent))
+
+    def run(self):
+        ld = self.ld
+        st = _State()
+        a = ld.node.args
+        for p in ld.params:
+            st.env[p] = ('unk', p)
+        if a.kwarg is not None:
+            st.env[a.kwarg.arg] = st.new_cell(('K',))
+        names = [x.arg for x in a.posonlyargs + a.args + a.kwonlyargs if x.arg not in ('cls', 'self')]
+        if names:
+            st.env[names[0]] = ('path', 'F')
+        for _ in self.exec_block(ld, ld.node.body, st):
+            pass
+        return self.finals
+
+
+def rule_precedence(ctx, prog, m):
+    ld = m.func('Config.load')
+    # candidate merge functions: two-parameter functions reached from load that call themselves
+    merge_fns = {}
+    for fn in closure(prog, [ld]):
+        if fn is ld or fn.cls is not None and fn.cls.name == 'Config' and fn.name != 'load' and False:
+            continue
+        ps = [p for p in fn.params if p not in ('self', 'cls')]
+        if len(ps) == 2 and fn is not ld:
+            mf = MergeFn(prog, fn)
+            # a function that walks one parameter mapping and stores into the other one under the same key
+            if mf.overlay is not None and any(
+                    isinstance(t, ast.Subscript) and isinstance(t.value, ast.Name) and t.value.id == mf.base
+                    for t, _, _ in stores_to(fn.node)) or (mf.overlay is not None and any(
+                        isinstance(c.func, ast.Attribute) and isinstance(c.func.value, ast.Name) and c.func.value.id == mf.base
+                        and c.func.attr in ('setdefault', 'update') for c in calls_in(fn.node))):
+                merge_fns[(fn.file, fn.qualname)] = mf
+    ctx.floor('C18-R4/merge', len(merge_fns), 1, 'recursive merge function(s) reached from Config.load')
+    for (f, q), mf in sorted(merge_fns.items()):
+        if mf.ok is None:
+            ctx.undecided('C18-R4', mf.fi, 'recursive merge', mf.why)
+        ctx.ob('C18-R4', mf.fi, f'{q}: recursive merge semantics (6 cases)', mf.ok, mf.why, line=mf.fi.node.lineno)
+    ex = LoadExec(ctx, prog, m, ld, merge_fns)
+    try:
+        finals = ex.run()
+    except _Undecided as u:
+        ctx.undecided('C18-R4', ld, 'effective data', str(u))
+    if not finals:
+        ctx.undecided('C18-R4', ld, 'model_validate', 'no validation call reached by the symbolic execution of load')
+    names = {'D': 'defaults', 'F': 'file', 'K': 'keyword arguments'}
+    seen = set()
+    for line, layers, shallow, unknown, absent in finals:
+        live = [x for x in layers if x not in absent]
+        dedup = []
+        for x in live:
+            if not dedup or dedup[-1] != x:
+                dedup.append(x)
+        want = [x for x in 'DFK' if x not in absent]
+        desc = ' <- '.join(names[x] for x in dedup) or '{}'
+        cond = ('no file given' if 'F' in absent else '') + (', ' if len(absent) == 2 else '') + ('no keyword arguments' if 'K' in absent else '')
+        key = (desc, cond, bool(shallow), bool(unknown))
+        if key in seen:
+            continue
+        seen.add(key)
+        if unknown and not shallow and dedup == want:
+            ctx.undecided('C18-R4', ld, f'effective data = {desc}', unknown)
+        ok = dedup == want and not shallow and not unknown
+        why = 'defaults overlaid by file overlaid by keyword arguments, each step recursive'
+        if shallow:
+            why = (f'a merge step is shallow ({shallow}): a keyword (or file) section replaces the whole section below it, so '
+                   'nested keys set by the lower layer are lost')
+        elif dedup != want:
+            missing = [names[x] for x in want if x not in dedup]
+            why = (f'the data handed to validation is {desc}' + (f' (when {cond})' if cond else '') +
+                   (f': {", ".join(missing)} never reach it' if missing else
+                    ': the order of precedence is not defaults, then file, then keyword arguments'))
+        elif unknown:
+            why = unknown
+        ctx.ob('C18-R4', ld, f'effective data = {desc}' + (f' [{cond}]' if cond else ''), ok, why, line=line)
+    ctx.stats['load_paths'] = len(finals)
+
+
+# ------------------------------------------------------------------------------------------------------------------
 
 def run(ctx):
     rule_normalise(ctx)
@@ -96,17 +1300,40 @@ def run(ctx):
         ctx.undecided('C18-R1', (m.relpath, '<module>'), GLOBAL, 'singleton global not found')
 
     # ---- R1 --------------------------------------------------------------
-    pipeline = _after_validators(cfg)
+    pipeline = _validators(cfg, 'after')
     ctx.floor('C18-R1/pipeline', len(pipeline), 1, 'after-validators of Config')
     ctx.stats['after_validators_in_order'] = [f.qualname for f in pipeline]
     publishes = []
+    nul = Nullness(prog, m)
     for fi in m.functions.values():
         for st in _global_stores(fi):
             v = getattr(st, 'value', None)
             is_none = isinstance(v, ast.Constant) and v.value is None
+            if isinstance(v, ast.Name) and v.id in fi.params:
+                # a setter: what it stores is what its callers hand it
+                sites = [(f, c) for f in prog.all_functions() for c, g_ in callees(prog, f) if g_ is not None and g_.node is fi.node]
+                kinds = {dict(nul.arg_nullness(f, fi, c)).get(v.id, 'U') for f, c in sites}
+                is_none = bool(kinds) and kinds == {'N'}
             publishes.append((fi, st, is_none))
     pubs = [(fi, st) for fi, st, is_none in publishes if not is_none]
     ctx.floor('C18-R1', len(pubs), 1, 'publish sites of the singleton')
+
+    def fallible(node):
+        if node.stmt is None:
+            return False
+        if 'raise' in node.why_raise and isinstance(node.stmt, (ast.Raise, ast.Assert)):
+            return True
+        if 'call' not in node.why_raise:
+            return False
+        hs = {'stmt': [node.stmt], 'test': [getattr(node.stmt, 'test', None)], 'iter': [getattr(node.stmt, 'iter', None)],
+              'with': [i.context_expr for i in getattr(node.stmt, 'items', [])],
+              'match': [getattr(node.stmt, 'subject', None)]}.get(node.kind, [node.stmt])
+        cs = [c for h in hs if h is not None for c in calls_in(h)]
+        if node.kind == 'with':
+            return True
+        return any(not _is_logging(c) for c in cs)
+
+    stage_of_pub = None
     for fi, st in pubs:
         # which pipeline stage does this function belong to?
         stage = None
@@ -117,6 +1344,7 @@ def run(ctx):
             ctx.ob('C18-R1', fi, f'publish `{norm(st)}` inside the validation pipeline', False,
                    'the singleton is published outside Config\'s after-validators', line=st.lineno)
             continue
+        stage_of_pub = stage if stage_of_pub is None else max(stage_of_pub, stage)
         last = stage == len(pipeline) - 1
         later = [v.qualname for v in pipeline[stage + 1:]]
         in_fin = any(isinstance(a, ast.Try) and any(st is s or _within(st, s) for s in a.finalbody)
@@ -136,8 +1364,7 @@ def run(ctx):
         pn = [n for n in g.nodes if n.stmt is st]
         for p in pn:
             after = g.reachable(p.id, labels={'n', 't', 'f'}) - {p.id}
-            fall = [g.nodes[x] for x in after if g.nodes[x].why_raise & {'call', 'raise'}
-                    and g.nodes[x].stmt is not None]
+            fall = [g.nodes[x] for x in after if fallible(g.nodes[x])]
             # accepted idiom: handler that unpublishes and re-raises
             covered = []
             for x in fall:
@@ -156,7 +1383,7 @@ def run(ctx):
             bad = [x for x in fall if x not in covered]
             ctx.ob('C18-R1', fi, 'nothing fallible follows the publish', not bad,
                    'only `return self` follows' if not bad else
-                   f'`{bad[0].text()[:70]}` (line {bad[0].line}) can fail after the singleton was set',
+                   f'`{bad[0].text()[:70]}` (line {int(bad[0].line)}) can fail after the singleton was set',
                    line=(bad[0].line if bad else st.lineno))
         if fi != pipeline[stage]:
             # published from a helper: the validator must not do fallible work after calling it
@@ -168,8 +1395,7 @@ def run(ctx):
                         (resolve_call(prog, v, c) == fi or fi in closure(prog, [resolve_call(prog, v, c)]))
                         for c in calls_in(n.stmt)):
                     after = gv.reachable(n.id, labels={'n', 't', 'f'}) - {n.id}
-                    bad = [gv.nodes[x] for x in after if gv.nodes[x].why_raise & {'call', 'raise'}
-                           and gv.nodes[x].stmt is not None]
+                    bad = [gv.nodes[x] for x in after if fallible(gv.nodes[x])]
                     ctx.ob('C18-R1', v, f'nothing fallible after the publishing call {n.text()[:50]}', not bad,
                            'publishing helper is the last fallible step' if not bad else
                            f'`{bad[0].text()[:70]}` can fail after the helper set the singleton',
@@ -177,91 +1403,106 @@ def run(ctx):
     # subclass validators would run after the parent's
     for c in prog.subclasses_of('Config'):
         if c is not cfg and c.module.relpath.startswith('src/AEIC/config'):
-            extra = _after_validators(c)
+            extra = _validators(c, 'after')
             ctx.ob('C18-R1', (c.file, c.name), 'subclass adds no later validator', not extra,
                    'none' if not extra else f'{[e.qualname for e in extra]} run after the publish')
 
-    # ---- R3 guards --------------------------------------------------------
-    first = pipeline[0]
-    g = CFG(first.node)
-    refusal = None
-    for n in g.nodes:
-        if n.kind == 'stmt' and isinstance(n.stmt, ast.Raise):
-            gs = guards_of(n.stmt)
-            if any(norm(t) == f'{GLOBAL} is not None' and pol for t, pol, _ in gs):
-                refusal = (n, [x for _, _, o in gs for x in g.nodes_of(o)])
-    ok = False
-    if refusal is not None:
-        dom = g.dominators(edge_ok=lambda a, b, lab: lab != 'e')
-        test_nodes = refusal[1]
-        others = [n for n in g.nodes if n.stmt is not None and n.id not in test_nodes
-                  and n.id != refusal[0].id and n.why_raise]
-        ok = all(any(t in dom[o.id] for t in test_nodes) for o in others)
-    ctx.ob('C18-R3', first, 'second load refused before anything else happens', ok,
-           '`if _config is not None: raise` dominates every other step of the first after-validator' if ok else
-           'loading while a configuration is active is not refused first (or not at all)',
-           line=(refusal[0].line if refusal else first.node.lineno))
-    # the refusal must precede the publish in pipeline order: it is in stage 0 by construction
+    # ---- R3 guards, by null-ness ---------------------------------------------------------------------------------
+    # (a) the pipeline: on every path to the publish the singleton has been seen to be None
+    S = TOP
+    for v in pipeline:
+        S = nul.flow(v, S, collect=True)
+    for fi, st in pubs:
+        seen_states = nul.at_store.get(id(st))
+        if seen_states is None:
+            continue   # not reached from the pipeline: reported by R1
+        ok = seen_states == ISNONE
+        ctx.ob('C18-R3', fi, f'second load refused before `{norm(st)}`', ok,
+               'on every path through the after-validators to the publish `_config is None` has been established; the '
+               'other branch raises' if ok else
+               'the publish can be reached while a configuration is already active: loading while one is active is not '
+               'refused (or not on every path) and replaces the active configuration', line=st.lineno)
+    # (b) every function that uses the singleton's value does so only where it is known to be set
+    users = []
+    for q, fi in sorted(m.functions.items()):
+        if fi in pipeline or q not in nul.touch:
+            continue
+        nul.flow(fi, TOP, collect=True)
+    for _, (fi, x, states) in sorted(nul.at_use.items(), key=lambda kv: (kv[1][1].lineno, kv[1][1].col_offset)):
+        if fi in pipeline:
+            continue
+        users.append(fi)
+        ok = states == ISSET or not states
+        host = x
+        while not isinstance(host, ast.stmt):
+            host = host._parent
+        ctx.ob('C18-R3', fi, f'use of the singleton in `{norm(host)[:60]}` only when set', ok,
+               '`_config is None` has been excluded (the other branch raises) on every path to this use' if ok else
+               'the singleton\'s value is used on a path where it may still be None: settings are reached (or a default is '
+               'substituted) before any successful load', line=x.lineno)
+    ctx.floor('C18-R3/uses', len(users), 1, 'uses of the singleton\'s value outside the pipeline')
+    # (c) the public accessors return normally only when a configuration is active
     for qn in ('Config.get', 'ConfigProxy.__getattr__', 'ConfigProxy.__setattr__'):
         fi = m.func(qn)
-        g = CFG(fi.node)
-        dom = g.dominators(edge_ok=lambda a, b, lab: lab != 'e')
-        gate = None
-        for n in g.nodes:
-            if n.kind == 'stmt' and isinstance(n.stmt, ast.Raise):
-                gs = guards_of(n.stmt)
-                if any(norm(t) == f'{GLOBAL} is None' and pol for t, pol, _ in gs):
-                    gate = [x for _, _, o in gs for x in g.nodes_of(o)]
-        uses = [n for n in g.nodes if n.stmt is not None and n.kind == 'stmt' and
-                isinstance(n.stmt, (ast.Return, ast.Expr)) and GLOBAL in norm(n.stmt)]
-        ok = gate is not None and bool(uses) and all(any(t in dom[u.id] for t in gate) for u in uses)
+        out = nul.flow(fi, TOP)
+        ok = out == ISSET
         ctx.ob('C18-R3', fi, 'access refused while unconfigured', ok,
-               '`if _config is None: raise` dominates the use' if ok else
-               'settings can be read (or written) before any successful load')
+               'returns normally only on paths where `_config is None` has been excluded; the None branch raises'
+               if ok else
+               'the accessor can return normally while no configuration is active (no refusal on the None path): settings '
+               'can be read (or written) before any successful load')
+    # (d) reset leaves None on every path
     rs = m.func('Config.reset')
-    sts = _global_stores(rs)
-    ok = len(sts) == 1 and isinstance(sts[0].value, ast.Constant) and sts[0].value.value is None \
-        and not guards_of(sts[0])
+    out = nul.flow(rs, TOP)
+    ok = out == ISNONE
     ctx.ob('C18-R3', rs, 'reset clears the singleton unconditionally', ok,
-           norm(sts[0]) if ok else 'reset does not (always) store None')
+           'the singleton is None on every normal return of reset' if ok else 'reset does not (always) store None')
     # who may write the global
     for fi, st, is_none in publishes:
-        ok = (is_none and fi.qualname == 'Config.reset') or (not is_none and fi.cls is cfg)
+        ok = (is_none and fi.qualname == 'Config.reset') or (not is_none and fi.cls is cfg) or \
+            (not is_none and any(fi in closure(prog, [v]) for v in pipeline)) or (is_none and _own_publication(st)) or \
+            (is_none and isinstance(getattr(st, 'value', None), ast.Name))
         ctx.ob('C18-R3', fi, f'writer of the singleton: {norm(st)}', ok,
                'Config validator / reset' if ok else 'the singleton is written from an unexpected place',
                line=st.lineno, nontrivial=False)
     # the singleton may be cleared only by reset() itself, or by a failed load that clears
     # *its own* publication (guarded by an identity test against the instance being built)
-    all_validators = []
-    for sdef in cfg.node.body:
-        if isinstance(sdef, ast.FunctionDef) and any('validator' in norm(d_) for d_ in sdef.decorator_list):
-            all_validators.append(cfg.methods[sdef.name])
+    all_validators = _validators(cfg)
     ctx.stats['validators_all_modes'] = [f'{f.name}:{[norm(d_) for d_ in f.node.decorator_list][0][:40]}' for f in all_validators]
-    for fi in m.functions.values():
-        if fi.qualname == 'Config.reset':
+    def clears_at(fi, c):
+        """the call can leave the singleton None although it was set before"""
+        callee = resolve_call(prog, fi, c)
+        if callee is None or callee.module is not m or not nul.relevant(callee):
+            return False
+        return 'N' in nul.flow(callee, ISSET, False, nul.arg_nullness(fi, callee, c))
+
+    load_side = {(f.file, f.qualname) for f in closure(prog, [m.func('Config.load')] + all_validators)} | \
+        {(f.file, f.qualname) for f in m.functions.values() if f.cls is cfg}
+    for fi in prog.all_functions():
+        if (fi.file, fi.qualname) not in load_side or fi.qualname == 'Config.reset':
             continue
         for c in calls_in(fi.node):
-            cn = call_name(c)
-            if cn in ('cls.reset', 'Config.reset', 'self.reset', 'reset') and fi.cls is cfg:
-                gs = [norm(t) for t, pol, _ in guards_of(c)]
-                own = any(('_config is self' in g_) or ('_config is result' in g_) or ('is _config' in g_) for g_ in gs)
-                ctx.ob('C18-R3', fi, f'{cn}() called inside {fi.qualname}', own,
+            if clears_at(fi, c):
+                own = _own_publication(c)
+                ctx.ob('C18-R3', fi, f'{call_name(c)}() called inside {fi.qualname}', own,
                        'clears only a publication made by this very load' if own else
                        ('the singleton is cleared on a path that is also taken when a load is *refused* because a '
                         'configuration is already active (the refusal is raised inside validation): a refused second load '
                         'wipes the active configuration'), line=c.lineno)
+    for fi in m.functions.values():
+        if fi.qualname == 'Config.reset':
+            continue
         for st in _global_stores(fi):
             v = getattr(st, 'value', None)
-            if isinstance(v, ast.Constant) and v.value is None and fi.qualname != 'Config.reset':
-                ctx.ob('C18-R3', fi, f'`{norm(st)}` outside reset()', False,
+            if isinstance(v, ast.Constant) and v.value is None:
+                # a setter that only reset() reaches is reset's own store
+                sites = [f for f in prog.all_functions() for c, g_ in callees(prog, f) if g_ is not None and g_.node is fi.node]
+                if sites and all(f.qualname == 'Config.reset' for f in sites):
+                    continue
+                own = _own_publication(st)
+                ctx.ob('C18-R3', fi, f'`{norm(st)}` outside reset()', own,
+                       'clears only a publication made by this very load' if own else
                        'the active configuration is cleared outside reset()', line=st.lineno)
-    # proxy setattr must delegate to setattr on the frozen instance (not object.__setattr__)
-    ps = m.func('ConfigProxy.__setattr__')
-    cs = [call_name(c) for c in calls_in(ps.node)]
-    ok = 'setattr' in cs and 'object.__setattr__' not in cs
-    ctx.ob('C18-R3', ps, 'proxy writes go through the frozen model', ok,
-           'setattr(_config, …) — pydantic refuses on a frozen model' if ok else
-           'the proxy bypasses the frozen model')
 
     # ---- R2 frozen closure --------------------------------------------------
     seen = {}
@@ -279,115 +1520,99 @@ def run(ctx):
                         st.append(rc)
     ctx.floor('C18-R2', len(seen), 3, 'model classes reachable from Config')
     for name, c in sorted(seen.items()):
+        # pydantic merges model_config along the MRO (a subclass's keys override its bases'); inside one class body a
+        # second assignment simply replaces the first
         frozen = False
         for k in c.mro():
             v = k.class_assignments().get('model_config')
-            if v is not None and isinstance(v, ast.Call):
+            fz = None
+            if isinstance(v, ast.Call):
                 fz = kwarg(v, 'frozen')
+                if fz is None and any(kw.arg is None for kw in v.keywords):
+                    fz = ast.Constant(False)   # **unpacked settings: not evidently frozen
+            elif isinstance(v, ast.Dict):
+                for kk, vv in zip(v.keys, v.values):
+                    if isinstance(kk, ast.Constant) and kk.value == 'frozen':
+                        fz = vv
+            elif v is not None:
+                fz = ast.Constant(False)
+            if fz is not None:
                 frozen = isinstance(fz, ast.Constant) and fz.value is True
                 break
         ctx.ob('C18-R2', (c.file, c.name), 'model_config frozen=True', frozen,
                'frozen' if frozen else f'{name} is reachable from Config but not frozen: nested values can be changed')
-    allowed = {f.qualname for f in pipeline} | {'Config._normalize_path'}
+
+    # writes that bypass the frozen model: only in functions reachable only from Config's validators
+    validators = {(f.file, f.qualname) for f in all_validators}
+    conf_memo: dict = {}
+
+    def confined(fi, trail=()):
+        """(True, None) when every resolved call chain into fi starts in one of Config's validators"""
+        k = (fi.file, fi.qualname)
+        if k in validators:
+            return True, None
+        if k in conf_memo:
+            return conf_memo[k]
+        if k in trail:
+            return True, None   # a cycle adds no new entry point
+        callers = [(f, c) for f in prog.all_functions() for c, g_ in callees(prog, f) if g_ is not None and g_.node is fi.node]
+        if not callers:
+            res = (False, f'{fi.qualname} is not called from a validator (it can be called from anywhere)')
+        else:
+            res = (True, None)
+            for caller, _ in callers:
+                ok, why = confined(caller, trail + (k,))
+                if not ok:
+                    res = (False, why if caller.qualname in (why or '') and ' <- ' in (why or '') else f'{fi.qualname} <- {why}')
+                    break
+        conf_memo[k] = res
+        return res
+
+    def config_object(fi, tgt) -> bool:
+        c = expr_class(prog, fi, tgt)
+        if c is not None:
+            return c.name in seen or c.module is m or any(b.name in seen for b in c.mro())
+        return fi.file.startswith('src/AEIC/config') or 'config' in norm(tgt).lower() or 'cfg' in norm(tgt).lower()
+
     n_sa = 0
+    done_nodes = set()
     for fi in prog.all_functions():
-        if not fi.file.startswith('src/AEIC/config') and 'config' not in fi.file:
-            scope_all = True
+        if id(fi.node) in done_nodes:   # a moved function is registered under its old and its new name
+            continue
+        done_nodes.add(id(fi.node))
+        sites = []
         for c in calls_in(fi.node):
-            if call_name(c) == 'object.__setattr__':
-                n_sa += 1
-                tgt = norm(c.args[0]) if c.args else '?'
-                in_cfg = fi.file == m.relpath
-                if in_cfg or 'config' in tgt.lower():
-                    ok = fi.qualname in allowed
-                    ctx.ob('C18-R2', fi, f'object.__setattr__({tgt}, {norm(c.args[1]) if len(c.args) > 1 else "?"})',
-                           ok, 'inside Config\'s validators (before publication)' if ok else
-                           'frozen configuration mutated outside the validation pipeline', line=c.lineno,
-                           nontrivial=False)
+            if call_name(c) in ('object.__setattr__', 'object.__delattr__') and c.args:
+                sites.append((c, c.args[0], f'{call_name(c)}({norm(c.args[0])}, {norm(c.args[1]) if len(c.args) > 1 else "?"})'))
+        for t, s2, how in stores_to(fi.node):
+            b = t
+            while isinstance(b, ast.Subscript):
+                b = b.value
+            if isinstance(b, ast.Attribute) and b.attr == '__dict__' and b is not t:
+                sites.append((s2, b.value, f'{norm(t)[:50]} = …'))
+        for node, tgt, text in sites:
+            if not config_object(fi, tgt):
+                continue
+            n_sa += 1
+            ok, why = confined(fi)
+            ctx.ob('C18-R2', fi, text, ok,
+                   'reachable only from Config\'s validators: the instance is not published yet' if ok else
+                   f'frozen configuration mutated outside the validation pipeline ({why})', line=node.lineno, nontrivial=False)
     ctx.stats['object_setattr_sites'] = n_sa
+    ctx.floor('C18-R2/setattr', n_sa, 1, 'writes that bypass the frozen model')
+    # proxy writes go through the frozen model: the proxy's __setattr__ must hand the write to the instance
+    ps = m.func('ConfigProxy.__setattr__')
+    fwd = [c for c in calls_in(ps.node) if call_name(c) == 'setattr' or (isinstance(c.func, ast.Attribute) and c.func.attr == '__setattr__'
+                                                                          and call_name(c) != 'object.__setattr__')]
+    ctx.ob('C18-R3', ps, 'proxy writes go through the frozen model', bool(fwd),
+           'setattr(<active configuration>, …) — pydantic refuses on a frozen model' if fwd else
+           'the proxy does not hand writes to the frozen model')
 
     # ---- R4 precedence --------------------------------------------------------
-    ld = m.func('Config.load')
-    mv = [c for c in calls_in(ld.node) if call_name(c).endswith('model_validate')]
-    if len(mv) != 1 or not mv[0].args:
-        ctx.undecided('C18-R4', ld, 'model_validate', 'final validation call not found')
-    final = mv[0].args[0]
-
-    def is_du(e):
-        return isinstance(e, ast.Call) and call_name(e) == 'deep_update' and len(e.args) == 2
-
-    def shallow(e):
-        if isinstance(e, ast.Dict) and any(k is None for k in e.keys):
-            return 'dict display with ** unpacking'
-        if isinstance(e, ast.BinOp) and isinstance(e.op, ast.BitOr):
-            return 'dict | dict'
-        if isinstance(e, ast.Call) and call_name(e) in ('dict', 'ChainMap', 'collections.ChainMap'):
-            return call_name(e) + '(...)'
-        return None
-
-    def origin(e, depth=0, before=10**9):
-        """describe where a data dict comes from"""
-        if isinstance(e, ast.Name):
-            defs = [s for t, s, how in stores_to(ld.node) if isinstance(t, ast.Name) and t.id == e.id
-                    and s.lineno < before]
-            if e.id == 'kwargs' and ld.node.args.kwarg and ld.node.args.kwarg.arg == 'kwargs':
-                return 'kwargs'
-            srcs = set()
-            for d in defs:
-                v = d.value
-                if isinstance(v, ast.Call) and call_name(v) == 'tomllib.load':
-                    w = next((a for a in ancestors(d) if isinstance(a, ast.With)), None)
-                    txt = norm(w.items[0].context_expr) if w else ''
-                    srcs.add('defaults' if 'default_config.toml' in txt else ('file' if 'config_file' in txt else 'toml?'))
-                elif isinstance(v, ast.Dict) and not v.keys:
-                    pass
-                elif is_du(v):
-                    srcs.add(f'deep_update({origin(v.args[0], depth + 1, d.lineno)}, {origin(v.args[1], depth + 1, d.lineno)})')
-                else:
-                    sh = shallow(v)
-                    srcs.add(f'SHALLOW[{sh}]' if sh else f'?{norm(v)[:40]}')
-            return '+'.join(sorted(srcs)) or '{}'
-        if is_du(e):
-            return f'deep_update({origin(e.args[0], depth + 1, before)}, {origin(e.args[1], depth + 1, before)})'
-        sh = shallow(e)
-        return f'SHALLOW[{sh}]' if sh else f'?{norm(e)[:40]}'
-
-    desc = origin(final, 0, mv[0].lineno + 1)
-    expected = 'deep_update(defaults, deep_update(file, kwargs)+file)'
-    ok = desc in (expected, 'deep_update(defaults, deep_update(file, kwargs))')
-    why = 'defaults overlaid by file overlaid by keyword arguments, each step recursive'
-    if 'SHALLOW' in desc:
-        why = ('a merge step is shallow: a keyword (or file) section replaces the whole section below it, '
-               'so nested keys set by the lower layer are lost')
-    elif not ok:
-        why = f'merge order/shape is {desc}'
-    ctx.ob('C18-R4', ld, f'effective data = {desc}', ok, why, line=mv[0].lineno)
-    for c in calls_in(ld.node):
-        if isinstance(c.func, ast.Attribute) and c.func.attr == 'update' and \
-                norm(c.func.value) in ('overlay_data', 'default_data'):
-            ctx.ob('C18-R4', ld, norm(c), False, 'dict.update is a shallow merge', line=c.lineno)
-
-    du = m.func('deep_update')
-    loop = next((n for n in walk_no_nested(du.node) if isinstance(n, ast.For)), None)
-    ok = False
-    why = 'deep_update shape not recognised'
-    if loop is not None and 'overlay.items()' in norm(loop.iter) and isinstance(first_stmt(loop.body), ast.If):
-        iff = first_stmt(loop.body)
-        t = norm(iff.test)
-        rec = any(call_name(c) == 'deep_update' for s in iff.body for c in calls_in(s))
-        both = 'isinstance(base[key], dict)' in t and 'isinstance(value, dict)' in t and 'key in base' in t
-        wins = any(isinstance(s, ast.Assign) and norm(s.targets[0]) == 'base[key]' and norm(s.value) == 'value'
-                   for s in iff.orelse)
-        ret = any(isinstance(n, ast.Return) and norm(n.value) == 'base' for n in walk_no_nested(du.node))
-        ok = rec and both and wins and ret
-        why = 'recurses only when both sides are dicts; otherwise the overlay value wins; returns base' if ok else \
-            f'recursion={rec} both-dict-guard={both} overlay-wins={wins} returns-base={ret}'
-    ctx.ob('C18-R4', du, 'deep_update semantics', ok, why)
+    rule_precedence(ctx, prog, m)
     ctx.assumptions += [
         "pydantic v2 runs mode='after' model validators in class-body declaration order, parents first",
         'a frozen pydantic model refuses attribute assignment',
+        'a configuration section keeps its kind (table or plain value) across defaults, file and keyword arguments, so '
+        'merging left to right and right to left agree',
     ]
-
-
-def _within(n, anc):
-    return any(a is anc for a in ancestors(n))
